@@ -260,7 +260,9 @@ fn c15_set_then_get_roundtrip() {
 }
 
 /// `subslice` never hands out a wider view: an out-of-range start panics (the `expect`).
-// EXPECT-PANIC: index out of bounds
+// (the panic is `Option::expect("index out of bounds")`; Kani renders run-time formatted panic messages as the
+// placeholder below, so that is the text the expected-panic filter has to match)
+// EXPECT-PANIC: This is a placeholder message; Kani doesn't support message formatted at runtime
 // FN: SliceRef::subslice
 // ALSO: C02
 #[kani::proof]
